@@ -101,6 +101,8 @@ def enumerated(tier, seed):
         a256 = dict(_sized("ascii", g, 0, 60 + g), data=dict(n=g * 2304 - 256, k=60 + g, mode=2, head="", tail=""))
         yield dict(mode="host", files=[a256, _sized("ml", 1, 3, 1), _sized("basic", 2, 0, 2), dict(a256, name="SECOND"), _sized("ascii", 68 - 2 * g - 3, -1, 3),
                                        _sized("ml", 1, 0, 4)])
+    # host route, many small files: 68 one-granule files and a 69th (every run re-reads all directory entries)
+    yield dict(mode="host", files=[_sized(("ml", "basic", "ascii")[i % 3], 1, 5, i) for i in range(69)])
     yield dict(mode="host", files=[_sized("ascii", 30, 0, 1), _sized("ascii", 38, -1, 2), _sized("ml", 1, 0, 3)])
     yield dict(mode="host", blank_start=True, files=[_sized("ml", 1, 5, 1), _sized("basic", 2, 0, 2), _sized("ascii", 65, 0, 3), _sized("ml", 1, 0, 4)])
     yield dict(mode="host", files=[_sized("ml", 28, 0, 1), _sized("ml", 28, 0, 2), _sized("ml", 13, 0, 3), _sized("ml", 12, 0, 4), _sized("ascii", 1, 0, 5)])
